@@ -375,13 +375,36 @@ EvSnap ==
                             ELSE IF kind = "ger" THEN GerServingViolations(s) ELSE ServingViolations(s))
   /\ l' = l + 1 /\ UNCHANGED <<t, kind, lostG, applied, lastOp>>
 
+(* a reader in the middle of an operation (the block's / the reorg's transaction is open, not committed): what it is
+   told by the look-ups that need no transaction of their own is the state before the operation - all or nothing *)
+PeekViolations(s) ==
+  LET recs  == LeafRecs(applied)
+      atoms == Atoms(recs)
+      n     == Len(recs)
+      vLast == IF s.last.c = "ok" /\ s.last.v = LastNum THEN <<>>
+               ELSE <<V("ReaderSeesCommittedState", [last |-> s.last, want |-> LastNum])>>
+      bad == { i \in DOMAIN s.roots :
+                 LET r == s.roots[i] IN
+                 IF r.i < n
+                 THEN ~(r.c = "ok" /\ r.n = RootName(atoms, r.i) /\ r.ri = r.i /\ r.b = recs[r.i + 1].b /\ r.p = recs[r.i + 1].p)
+                 ELSE r.c # "notfound" }
+      vRoots == IF bad = {} THEN <<>>
+                ELSE LET i == CHOOSE j \in bad : \A k \in bad : j <= k IN
+                     <<V("ReaderSeesCommittedState", [idx |-> s.roots[i].i, got |-> s.roots[i], leaves |-> atoms])>>
+  IN vLast \o vRoots
+
+EvPeek ==
+  /\ Ev("peek")
+  /\ viol' = viol \o (IF halted = "no" /\ kind # "ger" THEN PeekViolations(Trace[l].s) ELSE <<>>)
+  /\ l' = l + 1 /\ UNCHANGED <<t, kind, lostG, applied, halted, lastOp>>
+
 Finish ==
   /\ l = Len(Trace) + 1
   /\ PrintT(<<"VIOL", ToJson(viol)>>)
   /\ PrintT(<<"DONE", ToJson([lines |-> Len(Trace), traces |-> t])>>)
   /\ l' = l + 1 /\ UNCHANGED <<t, kind, lostG, applied, halted, lastOp, viol>>
 
-Next == EvReset \/ EvProcess \/ EvReorg \/ EvRestart \/ EvSnap \/ Finish
+Next == EvReset \/ EvProcess \/ EvReorg \/ EvRestart \/ EvSnap \/ EvPeek \/ Finish
 Spec == Init /\ [][Next]_vars
 
 HW == TLCSet(1, IF l > TLCGet(1) THEN l ELSE TLCGet(1))
